@@ -1,7 +1,8 @@
 (* C05 — Only RMN-blessed roots are reported when RMN is enabled.
    This file holds the property theorems only; each is closed by [exact] of a lemma proved in Proofs/. *)
 Require Import Verif.Model.Base Verif.Proofs.BaseP Verif.Model.SeqRange Verif.Model.CommitMerkle Verif.Model.CommitSM
-               Verif.Model.Transmit Verif.Model.CommitRmnGate Verif.Proofs.CommitSMP Verif.Proofs.CommitRmnGateP.
+               Verif.Model.Transmit Verif.Model.CommitRmnGate Verif.Proofs.CommitSMP Verif.Proofs.CommitRmnGateP
+               Verif.Model.C05Life Verif.Proofs.C05LifeP.
 
 (* RMN enabled, building round, no retry announced: an observation is produced only with a bundle whose parts all
    parse, a non-empty RMN remote config in the PREVIOUS outcome, and a positive answer of the signature oracle on
@@ -161,3 +162,69 @@ Theorem C05_honest_query : forall enabled st cfg_e init offramp ranges onramp ct
    ((exists b, ctrl = CtrlSigs b /\ q = mkQuery false (Some b)) \/ (ctrl = CtrlTimeout /\ q = mkQuery true None))).
 Proof. exact query_model_cases. Qed.
 Print Assumptions C05_honest_query.
+
+(* ---------- the Processor as a long-lived object: histories of rounds (Model/C05Life.v) ----------
+   One honest oracle keeps ONE Processor over any list of rounds; between the rounds the environment (RMN remote
+   config agreed and on chain, RMNHome node set, addresses, the leader's query) is arbitrary. [detail_of] maps the
+   (interned) RMN remote config of an outcome to its content; [verify_sigs] is any crypto oracle. *)
+
+(* the history is a chain: round k's previous outcome is round k-1's outcome (the initial one for the first round) *)
+Theorem C05_life_history_chained : forall verify_sigs detail_of enabled max n dest rs s,
+  (forall ev, nth_error (htrace verify_sigs detail_of enabled max n dest s rs) 0 = Some ev -> ev_prev ev = fst s) /\
+  (forall k ev1 ev2, nth_error (htrace verify_sigs detail_of enabled max n dest s rs) k = Some ev1 ->
+                     nth_error (htrace verify_sigs detail_of enabled max n dest s rs) (S k) = Some ev2 ->
+                     ev_prev ev2 = ev_out ev1).
+Proof. exact htrace_chained. Qed.
+Print Assumptions C05_life_history_chained.
+
+(* Over every history, in every round in which the crypto oracle is consulted: the round is a building round without
+   retry, and the call is expected_call on the RMN config of THAT round's previous outcome - its signer addresses are
+   that config's Signers, the report carries that config's report version, contract address and digest, the lane
+   updates and signatures are the bundle's. The initial state, the controller connection and every earlier round
+   (in particular every RMN config agreed earlier) do not occur in the statement. *)
+Theorem C05_life_verified_against_agreed_config : forall verify_sigs detail_of enabled max n dest s rs ev c,
+  In ev (htrace verify_sigs detail_of enabled max n dest s rs) -> ev_call ev = Some c ->
+  let d := detail_of (o_cfg (ev_prev ev)) in
+  next_state (o_type (ev_prev ev)) = Building /\ cfg_is_empty (o_cfg (ev_prev ev)) = false /\ enabled = true /\
+  q_retry (ev_q ev) = false /\
+  exists b offa, q_sigs (ev_q ev) = Some b /\ e_off (ev_env ev) = Some offa /\
+                 expected_call d dest offa b = Some c /\ snd c = cd_signers d.
+Proof. exact life_call_is_prev_cfg. Qed.
+Print Assumptions C05_life_verified_against_agreed_config.
+
+(* Over every history, RMN enabled: a round that writes a NEW outcome carrying roots is a building round without
+   retry whose bundle the crypto oracle accepted against the signer set (and report fields) of that round's previous
+   outcome; every reported root is one of the verified lane updates, the signatures are the verified ones, and the
+   RMN config of the report (its F_rmn) is the previous outcome's. Premise quorum_sound: in a round whose query
+   this honest oracle refused, the observations reach no consensus (libocr quorum, see the spec's trusted list). *)
+Theorem C05_life_roots_need_verified_bundle : forall verify_sigs detail_of enabled max n dest s rs ev,
+  enabled = true -> In ev (htrace verify_sigs detail_of enabled max n dest s rs) -> quorum_sound ev ->
+  ev_out ev <> ev_prev ev -> o_roots (ev_out ev) <> [] ->
+  let d := detail_of (o_cfg (ev_prev ev)) in
+  next_state (o_type (ev_prev ev)) = Building /\ q_retry (ev_q ev) = false /\
+  exists sigs lanes off,
+    verify_sigs (sigs, (cd_version d, dest, cd_contract d, off, cd_digest d, lanes), cd_signers d) = true /\
+    (forall r, In r (o_roots (ev_out ev)) -> In r lanes) /\ o_sigs (ev_out ev) = sigs /\
+    o_cfg (ev_out ev) = o_cfg (ev_prev ev).
+Proof. exact life_roots_need_verified_bundle. Qed.
+Print Assumptions C05_life_roots_need_verified_bundle.
+
+(* No dependence on earlier rounds: two instances that reached the same previous outcome through ANY two histories
+   from ANY two initial states behave alike in the next round - same crypto call, result, observation, outcome -
+   when the controller initialisation does not fail in it; and whenever both consult the crypto oracle (also with
+   failing initialisations) they consult it with the same call. *)
+Theorem C05_life_round_memoryless : forall verify_sigs detail_of enabled max n dest s1 s2 rs1 rs2 r,
+  fst (hfinal verify_sigs detail_of enabled max n dest s1 rs1) = fst (hfinal verify_sigs detail_of enabled max n dest s2 rs2) ->
+  e_ifail (h_env r) = 0%N ->
+  fst (hstep verify_sigs detail_of enabled max n dest (hfinal verify_sigs detail_of enabled max n dest s1 rs1) r) =
+  fst (hstep verify_sigs detail_of enabled max n dest (hfinal verify_sigs detail_of enabled max n dest s2 rs2) r).
+Proof. exact life_round_memoryless. Qed.
+Print Assumptions C05_life_round_memoryless.
+
+Theorem C05_life_call_memoryless : forall verify_sigs detail_of enabled max n dest s1 s2 rs1 rs2 r c1 c2,
+  fst (hfinal verify_sigs detail_of enabled max n dest s1 rs1) = fst (hfinal verify_sigs detail_of enabled max n dest s2 rs2) ->
+  ev_call (fst (hstep verify_sigs detail_of enabled max n dest (hfinal verify_sigs detail_of enabled max n dest s1 rs1) r)) = Some c1 ->
+  ev_call (fst (hstep verify_sigs detail_of enabled max n dest (hfinal verify_sigs detail_of enabled max n dest s2 rs2) r)) = Some c2 ->
+  c1 = c2.
+Proof. exact life_call_memoryless. Qed.
+Print Assumptions C05_life_call_memoryless.
